@@ -122,6 +122,36 @@ def loop_pairing_case(order):
     return txt, None
 
 
+def matrix_delay_case(opts):
+    """delay of a 2-D array expression under expand_vectors: the delay state named ...[i,j] delays element (i,j) of the expression"""
+    from pymoca.backends.casadi.api import transfer_model
+    txt = ("model M parameter Real p = 3.0; Real x[2,3]; Real z[2,3]; Real y[2,3]; equation der(x) = -x; z = 3 * x; y = delay(2 * x + z, p); end M;")
+    with tempfile.TemporaryDirectory() as tmp:
+        with open(os.path.join(tmp, "M.mo"), "w") as f:
+            f.write(txt)
+        m = transfer_model(tmp, "M", dict(opts))
+    f = m.delay_arguments_function
+    rng = np.random.RandomState(5)
+    args = [rng.uniform(0.5, 2.0, size=(f.size1_in(i), f.size2_in(i))) for i in range(f.n_in())]
+    res = f(*args)
+    res = list(res) if isinstance(res, (list, tuple)) else [res]
+    env = {}
+    for lst, val in zip([[v.symbol.name() for v in getattr(m, c)] for c in ("states", "der_states", "alg_states", "inputs", "constants", "parameters")], args[1:]):
+        for n_, v in zip(lst, np.array(val).reshape(-1, order="F")):
+            env[n_] = float(v)
+    if len(m.delay_states) != 6 or len(res) != 12:
+        return txt, "%d delay states, %d outputs (expected 6 and 12)" % (len(m.delay_states), len(res))
+    for k, ds in enumerate(m.delay_states):
+        idx = ds[ds.index("[") + 1:-1]
+        want = 2 * env["x[%s]" % idx] + env["z[%s]" % idx]
+        got = float(np.array(res[2 * k]).reshape(-1)[0])
+        if abs(got - want) > 1e-9:
+            return txt, "delay state %s delays %r, but element [%s] of 2*x + z is %r (options %s)" % (ds, got, idx, want, opts)
+        if abs(float(np.array(res[2 * k + 1]).reshape(-1)[0]) - env.get("p", 3.0)) > 1e-9:
+            return txt, "delay state %s has duration %r instead of p" % (ds, float(np.array(res[2 * k + 1]).reshape(-1)[0]))
+    return txt, None
+
+
 def main():
     payload = json.load(sys.stdin)
     tier = payload.get("tier", "quick")
@@ -150,6 +180,14 @@ def main():
             txt, bad = "loop pairing model (%s)" % order, "%s: %s" % (type(e).__name__, str(e)[-200:])
         if bad:
             failures.append({"class": "delay", "input": txt, "observed": bad, "expected": "each delay state paired with its own expression and duration"})
+    for o in ({"expand_vectors": True}, {"expand_vectors": True, "expand_mx": True}):
+        n += 1
+        try:
+            txt, bad = matrix_delay_case(o)
+        except BaseException as e:  # noqa
+            txt, bad = "matrix delay model", "%s: %s" % (type(e).__name__, str(e)[-200:])
+        if bad:
+            failures.append({"class": "delay", "input": txt, "observed": bad, "expected": "each element's delay state paired with that element of the delayed expression"})
     for durs, loop, opts in cases:
         n += 1
         txt, (verdict, info), m = run(durs, loop, opts)
@@ -173,7 +211,7 @@ def main():
                 break
     if payload.get("mode") == "bounded":
         print(json.dumps({"performed": True, "cases": n, "distinct_nontrivial": n, "failures": failures,
-                          "rule": "delay durations drawn from each category (literal, constant, parameter, fixed input | time, state, derivative, algebraic, non-fixed input, mixtures), one to three delays in both orders, inside and outside a for-loop, with replace_constant_values, and compound durations over constants / aliased inputs under replace_*_values and detect_aliases: the real transfer_model must reject exactly the disallowed ones; for accepted models delay_arguments_function is evaluated at a random point; a for-loop with an indexed and a loop-invariant delay in both orders: every delay state paired with its own expression and duration",
+                          "rule": "delay durations drawn from each category (literal, constant, parameter, fixed input | time, state, derivative, algebraic, non-fixed input, mixtures), one to three delays in both orders, inside and outside a for-loop, with replace_constant_values, and compound durations over constants / aliased inputs under replace_*_values and detect_aliases: the real transfer_model must reject exactly the disallowed ones; for accepted models delay_arguments_function is evaluated at a random point; a delayed 2-D array expression under expand_vectors (element-wise pairing); a for-loop with an indexed and a loop-invariant delay in both orders: every delay state paired with its own expression and duration",
                           "bound": "%d models" % n}))
     else:
         f = failures[0] if failures else None
